@@ -685,7 +685,8 @@ def run(out):
     ncopy = c10_copy.run(out, rng)
     # the queue the backends feed from their callback threads (mido/backends/_parser_queue.py): several threads in put_bytes, one polling
     from props import threads_extra
-    nq, exq, npq, fq = threads_extra.pqueue_scenarios(quick)
+    nq, exq, npq, fq, rq = threads_extra.pqueue_scenarios(quick)
+    threads_extra.replay_on_model(out, threads_extra.COMP_PQ, rq, 'ParserQueue runs replayed on ConcPQ.v')
     out.evaluations += nq
     out.components['ParserQueue fed from several threads (scheduled, implementation against the statement)'] = {
         'cases': nq, 'programs': npq, 'programs_with_all_schedules_within_the_preemption_bound': exq, 'oracle_failures': len(fq)}
